@@ -24,7 +24,8 @@ ASSUMPTIONS = [
     "a listing word may be the little- or big-endian image of the code file's bytes (no per-CPU endianness table); "
     "one of the two must match",
     "listing lines are matched by (line number, address, bytes); lines hidden by LISTING OFF / MACEXP settings are "
-    "not required to appear - completeness (every emitted chunk is listed) is only required for generated programs",
+    "not required to appear - completeness is required for generated programs only: every plain code-emitting "
+    "statement outside macro bodies and outside LISTING OFF regions must be listed with its bytes",
     "whether typeless (EQU) symbols appear in the MAP symbol section is not asserted",
     "MAP numbers are hexadecimal; bit symbols (segment letter B) are shown by the listing in a CPU-specific "
     "dissected form and are not compared; MAP entries of statements that emitted nothing (e.g. ALIGN without gap) "
@@ -53,7 +54,7 @@ def strategy_(d, tier):
         items = []
         for _ in range(d.int(2, 12)):
             k = d.weighted([(5, "data"), (3, "ins"), (2, "lab"), (2, "mac"), (1, "inc"), (2, "phase"), (1, "seg"),
-                            (1, "res"), (1, "org")])
+                            (1, "res"), (1, "org"), (2, "macx"), (1, "mexp"), (1, "lst")])
             if k == "data":
                 items.append(["data", d.weighted([(4, d.int(1, 6)), (3, d.int(7, 20)), (2, d.int(21, 40))]), d.int(0, 255)])
             elif k == "phase":
@@ -62,6 +63,8 @@ def strategy_(d, tier):
                 items.append(["org", d.int(0, 0x300)])
             elif k == "res":
                 items.append(["res", d.int(1, 9)])
+            elif k in ("mexp", "lst"):
+                items.append([k, d.int(0, 7)])
             else:
                 items.append([k])
         spans.append(dict(cpu=cpu, items=items))
@@ -74,11 +77,20 @@ def strategy(tier):
 
 
 def render(case):
+    """returns (source, include text, labels, features, must) - must = line numbers of the main file that hold a plain
+    code-emitting statement while LISTING is on: these have to appear in the listing with their bytes"""
     L = []
+    must = set()
     inc = ["; include file", "inclab:\tnop", "\tnop"]
     labels = []
     feats = set()
     nlab = [0]
+    listing = [True]
+
+    def add(line, code=False):
+        L.append(line)
+        if code and listing[0]:
+            must.add(len(L))
 
     def lab():
         nlab[0] += 1
@@ -86,21 +98,21 @@ def render(case):
         labels.append(n)
         return n
     base = 0x100
+    add("vv\tset 0")
     for si, sp in enumerate(case["spans"]):
         cpu = sp["cpu"]
-        L.append("\tcpu %s" % cpu)
+        add("\tcpu %s" % cpu)
         datop = {"z80": "db", "68000": "dc.b", "8051": "db", "16c84": "data"}[cpu]
         resop = {"z80": "ds", "68000": "ds.b", "8051": "ds", "16c84": "res"}[cpu]
-        lim = {"z80": 0xffff, "68000": 0xffffff, "8051": 0xffff, "16c84": 0x3ff}[cpu]
         if cpu == "8051":
-            L.append("\tsegment code")
-        L.append("\torg %d" % (base if cpu != "16c84" else 16 + 64 * si))
+            add("\tsegment code")
+        add("\torg %d" % (base if cpu != "16c84" else 16 + 64 * si))
         base += 0x1400
         if cpu == "16c84":
             feats.add("wordgran")
         phased = 0
         inseg = "code"
-        macdef = False
+        macdef = macxdef = False
         for it in sp["items"]:
             k = it[0]
             if k == "data":
@@ -108,53 +120,73 @@ def render(case):
                 if cpu == "16c84":
                     n = min(n, 12)
                 vals = [(v0 + 3 * i) & 0xff for i in range(n)]
-                L.append("%s:\t%s %s" % (lab(), datop, ",".join(str(v) for v in vals)))
+                add("%s:\t%s %s" % (lab(), datop, ",".join(str(v) for v in vals)), code=True)
                 if n > 6:
                     feats.add("continuation")
                 if phased:
                     feats.add("phased")
             elif k == "ins":
                 if inseg == "code":
-                    L.append("\tnop")
+                    add("\tnop", code=True)
             elif k == "lab":
-                L.append("%s:" % lab())
+                add("%s:" % lab())
             elif k == "mac" and inseg == "code":
                 if not macdef:
-                    L += ["mc%d\tmacro" % si, "\tnop", "\t%s 1,2" % datop, "\tendm"]
+                    for x in ["mc%d\tmacro" % si, "\tnop", "\t%s 1,2" % datop, "\tendm"]:
+                        add(x)
                     macdef = True
-                L.append("\tmc%d" % si)
+                add("\tmc%d" % si)
                 feats.add("macro")
+            elif k == "macx" and inseg == "code":
+                # a macro whose body holds statements that set the listing's "special" column (IF/ENDIF, SET)
+                if not macxdef:
+                    for x in ["mx%d\tmacro" % si, "\tif vv>=0", "\tnop", "\tendif", "vv\tset vv+1", "\tendm"]:
+                        add(x)
+                    macxdef = True
+                add("\tmx%d" % si)
+                feats.add("macro-if-set")
+            elif k == "mexp":
+                add("\tmacexp_dft %s" % ["off", "on", "noif", "nomacro", "norest", "noif,norest", "on", "off"][it[1]])
+                feats.add("macexp")
+            elif k == "lst":
+                mode = ["off", "on", "noskipped", "purecode", "on", "on", "off", "on"][it[1]]
+                add("\tlisting %s" % mode)
+                listing[0] = mode != "off"
+                feats.add("listing-ctl")
             elif k == "inc" and inseg == "code" and cpu in ("z80", "8051") and "include" not in feats:
-                L.append("\tinclude \"inc1.inc\"")
+                add("\tinclude \"inc1.inc\"")
                 labels.append("inclab")
                 feats.add("include")
             elif k == "phase" and inseg == "code" and cpu != "16c84":
                 if phased and it[1] % 2:
-                    L.append("\tdephase")
+                    add("\tdephase")
                     phased -= 1
                 else:
-                    L.append("\tphase %d" % it[1])
+                    add("\tphase %d" % it[1])
                     phased += 1
             elif k == "seg" and cpu == "8051" and not phased:
                 inseg = "data" if inseg == "code" else "code"
-                L.append("\tsegment %s" % inseg)
+                add("\tsegment %s" % inseg)
                 if inseg == "data":
-                    L.append("\torg %d" % (0x30 + 8 * si))
-                    L.append("%s:\tds 2" % lab())
+                    add("\torg %d" % (0x30 + 8 * si))
+                    add("%s:\tds 2" % lab())
                     feats.add("dataseg")
             elif k == "res" and not phased:
-                L.append("%s:\t%s %d" % (lab(), resop, it[1]))
+                add("%s:\t%s %d" % (lab(), resop, it[1]))
             elif k == "org" and not phased and inseg == "code" and cpu != "16c84":
-                L.append("\torg %d" % (base - 0x1400 + 0x400 + it[1] * 2))
-        L += ["\tdephase"] * phased
+                add("\torg %d" % (base - 0x1400 + 0x400 + it[1] * 2))
+        for _ in range(phased):
+            add("\tdephase")
         if cpu == "8051" and inseg != "code":
-            L.append("\tsegment code")
+            add("\tsegment code")
         if cpu == "68000":
-            L += ["\tdc.b 1", "%s:\tdc.w 4660" % lab()]
+            add("\tdc.b 1", code=True)
+            add("%s:\tdc.w 4660" % lab(), code=True)
             feats.add("padding")
+    add("\tlisting on")
     for i in range(0, len(labels), 6):
-        L.append("\tshared %s" % ",".join(labels[i:i + 6]))
-    return "\n".join(L) + "\n", "\n".join(inc) + "\n", labels, feats
+        add("\tshared %s" % ",".join(labels[i:i + 6]))
+    return "\n".join(L) + "\n", "\n".join(inc) + "\n", labels, feats, must
 
 
 # ------------------------------------------------------------------ the oracle
@@ -217,7 +249,7 @@ def verify(lst_text, map_text, share_text, trace_text, pbytes, radix, complete, 
         st["matched"] += 1
     if complete:
         for t in codes:
-            if id(t) not in used:
+            if id(t) not in used and os.path.basename(t["file"]) == "t.asm" and t["line"] in complete:
                 return ("code emitted for line %d at %x (%s) is not shown by the listing"
                         % (t["line"], t["load"], t["data"][:8].hex())), st
     # 3. MAP line info
@@ -296,17 +328,17 @@ def execute(case):
             status, err, p = r["status"], r["r"].err, r["p"]
             lst, mp = r["files"][name + ".lst"], r["files"][name + ".map"]
             sh = run.read(d, name + ".h")
-            labels, feats, complete = None, set(), False
+            labels, feats, complete = None, set(), None
             ident = name
         else:
-            src, inc, labels, feats = render(case)
+            src, inc, labels, feats, must = render(case)
             r = asl.assemble({"t.asm": src, "inc1.inc": inc}, args=args, env=env, workdir=d,
                              want=("t.lst", "t.map", "t" + sext))
             if r.timed_out:
                 return engine.inconclusive("timeout", classes)
             status, err, p = r.status, r.err, r.p
             lst, mp, sh = r.files["t.lst"], r.files["t.map"], r.files["t" + sext]
-            complete = True
+            complete = must
             ident = engine.digest(src)
         trace = run.read(d, "trace.txt") or b""
     classes += ["feat:" + f for f in sorted(feats)]
